@@ -226,8 +226,8 @@ func absurdTxs(w *world, thorough bool) []namedTx {
 	for _, ti := range types_ {
 		t := uint16(ti)
 		var to *common.Address
-		if t == params.IssueAssetTx || t == params.TransferAssetTx || t == params.ReplenishAssetTx {
-			to = &u2.Addr
+		if !types.IsToExist(t, nil) {
+			to = &u2.Addr // the types that need a recipient (VerifyTxBody refuses the others with one)
 		}
 		for _, v := range jsonVariants(ts[t]) {
 			if !thorough && strings.Contains(v.name, "=") && !strings.HasPrefix(v.name, "whole=") {
